@@ -244,7 +244,7 @@ Print Assumptions C10_batch_is_a_split.
 
 Theorem C10_rr_count_no_overflow : forall ty s rs p' us e,
   flat (proc_new ty s) rs = (p', us, e) ->
-  N.of_nat (length rs) < 18446744073709551616 -> p_count p' < 18446744073709551616.
+  N.of_nat (length rs) < 2 ^ 64 -> p_count p' < 2 ^ rr_count_bits.
 Proof. exact rr_count_no_overflow. Qed.
 Print Assumptions C10_rr_count_no_overflow.
 
